@@ -5,6 +5,7 @@ import FeatModel.Model.FECfg
 import FeatModel.Model.FEHermite
 import FeatModel.Model.FEVolume
 import FeatModel.Model.FEUnmap
+import FeatModel.Model.FERT
 /-! line-protocol driver for the C15 models (reference bases, trafo, chain rule, DOF mappings, interpolation)
 
     `<op> <fam> <S|H> <dim> <mesh body> <op arguments>`, ops `ev`, `ref`, `dofs`, `interp`, `vol`, `tabcheck` -/
@@ -62,6 +63,67 @@ def singular (m : Mesh) (c : Nat) (x : List Rat) : Bool :=
 
 def supported (f : Fam) (m : Mesh) : Bool := (tabOf f m.kind m.dim).isSome
 
+def showNp (r : Rat × List Rat) (mask : Nat) : String :=
+  " ".intercalate ((if hasBit mask 1 then [showRat r.1] else []) ++ (if hasBit mask 2 then [showRats r.2] else []))
+
+/-- ops of the non-parametric evaluators (Rannacher–Turek, discontinuous P1 on hypercubes) -/
+def npHandle (op : String) (f : Fam) (m : Mesh) : P String := do
+  let d := m.dim
+  let nl := if f = Fam.CR then rtN d else d + 1
+  match op with
+  | "caps" => pure "K 3 3 127"
+  | "dofs" =>
+    let nc := m.n d
+    let all := (List.range nc).flatMap fun c => localDofs f m c
+    pure s!"D {numDofs f m} {nc} {nl} {showNats all}"
+  | "ev" =>
+    let c ← nat
+    let x ← many d rat
+    let V := m.entVerts d c
+    if det d (jacMat m.kind d V (List.replicate d 0)) = 0 then return "ABORT"
+    match npEval f m c x with
+    | none => pure "ABORT"
+    | some rows =>
+      let J := jacMat m.kind d V x
+      pure s!"E {nl} 1 0 {" ".intercalate (rows.map fun r => showNp r 3)} T {showRats (mapPoint m.kind d V x)} {showMat J} {showRat (rabs (det d J))}"
+  | "evpts" =>
+    let c ← nat
+    let np ← nat
+    let pts ← many np (many d rat)
+    let mut out := s!"P {nl} 1 0"
+    for x in pts do
+      match npEval f m c x with
+      | none => return "ABORT"
+      | some rows => out := out ++ " " ++ " ".intercalate (rows.map fun r => showNp r 3)
+    pure out
+  | "evcfg" =>
+    let c ← nat
+    let x ← many d rat
+    let mask ← nat
+    let _poison ← nat
+    if mask = 0 ∨ mask > 3 then return "UNSUPPORTED-MASK"
+    match npEval f m c x with
+    | none => pure "ABORT"
+    | some rows =>
+      pure s!"C {nl} {mask} {" ".intercalate (rows.map fun r => showNp r mask)} F 3 {" ".intercalate (rows.map fun r => showNp r 3)}"
+  | "interp" =>
+    let p ← polyP d
+    let nq ← nat
+    let qs ← many nq (do let c ← nat; let x ← many d rat; pure (c, x))
+    let u := npInterp f m p
+    let mut out := s!"I {showRatsL u} {nq} 1 0"
+    for (c, x) in qs do
+      match npEval f m c x with
+      | none => return "ABORT"
+      | some rows =>
+        let dofs := localDofs f m c
+        let coef := fun (i : Nat) => u.getD (dofs.getD i 0) 0
+        let v := sumR ((List.range nl).map fun i => coef i * (rows.getD i (0, [])).1)
+        let g := (List.range d).map fun a => sumR ((List.range nl).map fun i => coef i * (rows.getD i (0, [])).2.getD a 0)
+        out := out ++ s!" {showRats (mapPoint m.kind d (m.entVerts d c) x)} {showRat v} {showRats g}"
+    pure out
+  | _ => pure "UNSUPPORTED"
+
 def handle : P String := do
   let op ← tok
   let fs ← tok
@@ -90,6 +152,7 @@ def handle : P String := do
   match famOf fs with
   | none => pure "UNSUPPORTED"
   | some f =>
+    if npSupported f m then npHandle op f m else
     if !supported f m then pure "UNSUPPORTED" else
     match op with
     | "ev" =>
